@@ -144,3 +144,30 @@ func FsPath(path string, flags FsFlags) (afero.Fs, error) {
 
 	return afero.NewBasePathFs(afero.NewOsFs(), path), nil
 }
+
+// removeTree removes path and everything below it, entry by entry. afero's
+// MemMapFs implements RemoveAll by string prefix, so RemoveAll("abc") also
+// destroys a sibling called "abcd" (another bucket, or another bucket's
+// metadata). Removing exactly the entries found by walking the tree behaves
+// the same on every afero.Fs. If root does not exist the error satisfies
+// os.IsNotExist.
+func removeTree(fs afero.Fs, root string) error {
+	var paths []string
+	err := afero.Walk(fs, root, func(p string, info os.FileInfo, err error) error {
+		if err != nil {
+			return err
+		}
+		paths = append(paths, p)
+		return nil
+	})
+	if err != nil {
+		return err
+	}
+	// Walk reports a directory before its entries; remove in reverse.
+	for i := len(paths) - 1; i >= 0; i-- {
+		if err := fs.Remove(paths[i]); err != nil && !os.IsNotExist(err) {
+			return err
+		}
+	}
+	return nil
+}
